@@ -220,3 +220,21 @@ def decode_bytes(cls, data):
     obj = cls()
     decode_message(obj, data)
     return canon_env(obj)
+
+
+def decoded_types_problem(cls, data):
+    """after decoding, every present byte-array field holds an array of bytes (not a str left over
+    from construction, not a list of something else); returns a description or None"""
+    from pyipmi.msgs import decode_message, message as M
+    obj = cls()
+    decode_message(obj, data)
+    for f in fields_of(cls) or ():
+        g = inner(f)
+        v = getattr(obj, g.name)
+        if v is None:
+            continue
+        if type(g) in (M.ByteArray, M.VariableByteArray, M.RemainingBytes) and not isinstance(v, (array, bytes, bytearray)):
+            return 'field %s holds %r (%s) after decoding, not a byte array' % (g.name, v, type(v).__name__)
+        if isinstance(g, M.UnsignedInt) and (not isinstance(v, int) or isinstance(v, bool)):
+            return 'field %s holds %r (%s) after decoding, not an int' % (g.name, v, type(v).__name__)
+    return None
